@@ -39,7 +39,7 @@ ASSUMPTIONS = [
     'a message element with no children at all (not schema-valid) may classify as its class or as UnknownMosFileType',
     'damaged texts on which ElementTree raises something other than ParseError are not generated',
 ]
-MANDATORY = ['source:relfile', 'decorated', 'utf8-bom', 'namespaced', 'attributes', 'filter:error', 'source:bytes', 'source:file', 'encoding:latin1', 'encoding:utf16', 'encoding:utf16be', 'ea-shape:unlisted', 'ea-shape:listed',
+MANDATORY = ['str-with-bom-or-foreign-declaration', 'envelope-without-messageID', 'source:relfile', 'decorated', 'utf8-bom', 'namespaced', 'attributes', 'filter:error', 'source:bytes', 'source:file', 'encoding:latin1', 'encoding:utf16', 'encoding:utf16be', 'ea-shape:unlisted', 'ea-shape:listed',
              'ea-op:unknown', 'ea-op:missing', 'ea-source:absent', 'malformed', 'unknown-root',
              'nested-decoy', 'envelope-permuted', 'plain-tag']
 
@@ -111,6 +111,13 @@ def classify(text, source='str', filt='default'):
         try:
             if source == 'str':
                 mo = MosFile.from_string(text)
+            elif source == 'str:bom':
+                # text read from a BOM-prefixed UTF-8 file with encoding='utf-8' keeps U+FEFF
+                mo = MosFile.from_string('\ufeff' + text)
+            elif source.startswith('str:decl-'):
+                # a str still carrying the declaration of the encoding it was decoded from
+                body = text[text.index('?>') + 2:] if text.startswith('<?xml') else text
+                mo = MosFile.from_string(f'<?xml version="1.0" encoding="{source[9:]}"?>' + body)
             elif source == 'bytes':
                 mo = MosFile.from_string(text.encode('utf-8'))
             elif source == 'bytes:utf8bom':
@@ -203,6 +210,25 @@ def record_doc(col, text, classes, sources=('str', 'bytes', 'file'), filters=('d
         if k == 5:
             case = {'doc': text, 'source': 'bytes:utf8bom', 'filter': 'default'}
             col.record(case, True, list(classes) + ['utf8-bom'], judge_doc(case), key=h64(text, 'bom'))
+            for src in ('str:bom', 'str:decl-ISO-8859-1', 'str:decl-UTF-16', 'str:decl-US-ASCII'):
+                case = {'doc': text, 'source': src, 'filter': 'default'}
+                col.record(case, True, list(classes) + ['str-with-bom-or-foreign-declaration'], judge_doc(case),
+                           key=h64(text, src))
+        if k in (6, 7):
+            # the same document in a poorer envelope: no messageID, no mosID (k == 7: nothing but the body)
+            try:
+                root = ET.fromstring(text)
+                for tag in ('messageID', 'mosID', 'ncsID')[:1 if k == 6 else 3]:
+                    for c in root.findall(tag):
+                        root.remove(c)
+                bare = ET.tostring(root, encoding='unicode')
+                if expected(bare) == expected(text):
+                    for source in ('str', 'bytes', 'file'):
+                        case = {'doc': bare, 'source': source, 'filter': 'default'}
+                        col.record(case, True, list(classes) + ['envelope-without-messageID'], judge_doc(case),
+                                   key=h64(bare, source))
+            except ET.ParseError:
+                pass
     if encodings:
         # the same document in a declared ISO-8859-1 / UTF-16 encoding, from bytes and from a file
         for enc in ENCODINGS:
